@@ -255,6 +255,36 @@ Fixpoint first_reject (pre prec : bool) (s : state) (ls : list label) (i : nat) 
   | l :: r => match step_gen pre prec s l with Some s' => first_reject pre prec s' r (S i) | None => Some i end
   end.
 
+(* Correspondence aid (not used by any theorem): in probe mode the harness sees, for every entry,
+   whether [store] appended it (Clone called under the lock) or compared it with a stored partial of
+   the same share (MarshalJSON called under the lock).  [verdict_mismatch] returns the index of the
+   first AEntry label whose observed verdict differs from the model's. *)
+Definition accepts (s : state) (c : nat) (e : entry) : bool :=
+  match e, calls s c with
+  | EGood pk sub p, Some cl =>
+      match classify p (ent s (c_duty cl, pk, sub)) with VNew => true | _ => false end
+  | _, _ => false
+  end.
+
+Fixpoint verdict_mismatch (s : state) (ls : list label) (obs : list (option bool)) (i : nat) : option nat :=
+  match ls with
+  | [] => None
+  | l :: r =>
+      match step s l with
+      | None => None
+      | Some s' =>
+          match l with
+          | AEntry c e =>
+              match obs with
+              | Some b :: obs' => if Bool.eqb b (accepts s c e) then verdict_mismatch s' r obs' (S i) else Some i
+              | None :: obs' => verdict_mismatch s' r obs' (S i)
+              | [] => verdict_mismatch s' r [] (S i)
+              end
+          | _ => verdict_mismatch s' r obs (S i)
+          end
+      end
+  end.
+
 (* ---- The property, read off the trace alone (no model state). ----
    The ghost keeps, per key, the partial signatures ACCEPTED so far (first one per share; the list
    is emptied when the duty is trimmed) and per call what is DUE to the threshold subscribers:
